@@ -177,12 +177,6 @@ class Runner:
             if r.returncode != 0:
                 return None, "replace-calls failed:\n" + r.stdout[-3000:]
             gb = gb3
-        # drop unreachable functions now, so that loop listings (unwindset) and CBMC see the
-        # same set of functions
-        gbd = os.path.join(d, "harness_d.gb")
-        r = sh(["goto-instrument", "--drop-unused-functions", gb, gbd])
-        if r.returncode == 0 and os.path.exists(gbd):
-            gb = gbd
         if ob.fp_restrict:
             gb2 = os.path.join(d, "harness_fp.gb")
             cmd = ["goto-instrument"]
@@ -192,6 +186,12 @@ class Runner:
             if r.returncode != 0:
                 return None, "function pointer restriction failed:\n" + r.stdout[-3000:]
             gb = gb2
+        # drop unreachable functions now, so that loop listings (unwindset) and CBMC see the
+        # same set of functions
+        gbd = os.path.join(d, "harness_d.gb")
+        r = sh(["goto-instrument", "--drop-unused-functions", gb, gbd])
+        if r.returncode == 0 and os.path.exists(gbd):
+            gb = gbd
         return gb, "".join(log)
 
     def unwindset(self, ob, gb):
@@ -221,10 +221,25 @@ class Runner:
             hit = False
             if pat == "RECURSION":
                 res.append("%s:%d" % (fn, n)); continue
+            kth = -1
+            if pat and pat.startswith("^"):
+                # "^k" selects the k-th loop of the function in SOURCE-LINE order
+                cand = sorted([(ln, lid) for (lid, f, ln, func) in loops if func == fn])
+                kk = int(pat[1:])
+                if kk < len(cand):
+                    res.append("%s:%d" % (cand[kk][1], n)); hit = True
+                if not hit and cand:
+                    res.append(None)
+                continue
             for (lid, f, ln, func) in loops:
                 if func != fn:
                     continue
-                if pat:
+                kth += 1
+                if pat and pat.startswith("#"):
+                    # "#k" selects the k-th loop of the function (in goto-program order)
+                    if kth != int(pat[1:]):
+                        continue
+                elif pat:
                     path = f if os.path.isabs(f) else os.path.join(REPO, f)
                     if path not in srccache:
                         try:
